@@ -11,6 +11,7 @@ const hookPkg = "ophost/types/hook"
 
 func propC19(c *Ctx) {
 	c.Clauses = append(c.Clauses,
+		"create / update-metadata: every listed channel is registered to the challenger or already administered by it, list walked to its end; hasPermChannels is false only for empty metadata, a failed parse / strict decode, or an absent key",
 		"PermKeeper.SetAdmin is called only from registerChannelAdmin and BridgeChallengerUpdated",
 		"registerChannelAdmin reaches SetAdmin only when the channel exists (GetNextSequenceSend ok), has sent nothing (sequence == 1) and IsTaken == (false, nil); the admin is the caller's decoded challenger",
 		"every PermKeeper call in the three hooks is gated by hasPermChannels(config.Metadata) == true; hasPermChannels is true only when the key probe is true and strict decoding (DisallowUnknownFields applied to that decoder) succeeded; BridgeMetadataUpdated skips channels the challenger already administers",
